@@ -26,3 +26,6 @@ def c03_subtraction(inp, obligation):
     hits = [v for v in ctx.violations if v["clause"].startswith(("B.grid1d", "B.combi"))]
     bad = ["%s [%s]: %s" % (v["clause"], v["witness_class"], v["message"][:300]) for v in hits]
     return bool(bad), {"cases": n, "violations": bad[:4], "history": hits[0]["case"] if hits else None}
+
+
+from bounded import replay_C06 as _r6  # noqa: E402,F401  (the refusal contract of RefinementContainer.refine is shared with C06: kind C06.refine_refused)
